@@ -124,7 +124,13 @@ def build_http_request(
         elif k.lower() == b'user-agent':
             has_user_agent = True
     if body and not has_transfer_encoding:
-        headers[b'Content-Length'] = bytes_(len(body))
+        # An existing field keeps its spelling: a second Content-Length
+        # must not be added next to e.g. `content-length`.
+        cl_key = next(
+            (k for k in headers if k.lower() == b'content-length'),
+            b'Content-Length',
+        )
+        headers[cl_key] = bytes_(len(body))
     if not has_user_agent and not no_ua:
         headers[b'User-Agent'] = PROXY_AGENT_HEADER_VALUE
     return build_http_pkt(
@@ -155,7 +161,13 @@ def build_http_response(
             has_transfer_encoding = True
             break
     if not has_transfer_encoding and not no_cl:
-        headers[b'Content-Length'] = bytes_(len(body)) if body else b'0'
+        # An existing field keeps its spelling: a second Content-Length
+        # must not be added next to e.g. `content-length`.
+        cl_key = next(
+            (k for k in headers if k.lower() == b'content-length'),
+            b'Content-Length',
+        )
+        headers[cl_key] = bytes_(len(body)) if body else b'0'
     return build_http_pkt(line, headers, body, conn_close)
 
 
